@@ -33,6 +33,16 @@ CM_JOB = job("countmin",
     rec_timeout=240,     # a recording takes seconds; a driver that hangs inside the library is reported as a crash
 )
 
+# 64-bit weights (totals crossing 2^53): the same driver with --wide 1, every number logged as 4 limbs of 20 bits and the same
+# trace specification / contract evaluated on exact wide naturals (TraceCountMinW.cfg: WideNums = TRUE)
+CM_WIDE_JOB = job("countmin_wide",
+    harness="cm_rec", inc=["common", "count"], spec="TraceCountMin", cfg="TraceCountMinW.cfg", owners=["C14"],
+    files={Q: 2, T: 8},
+    args=lambda tier, seed, k, profile: ["--seed", seed, "--segments", 4 if tier == Q else 6, "--events", 200, "--maxrows", 6,
+                                         "--serde", 3, "--stats", 0, "--hstats", 0, "--wide", 1],
+    nontrivial=lambda evs: any(e["e"] == "Merge" and e["outcome"] == "ok" for e in evs), rec_timeout=240,
+)
+
 CM_MC = [
     dict(module="MC_CountMinDesign", cfg="MC_CountMinDesign.cfg"),
     dict(module="MC_CountMinDesign", cfg="MC_CountMinDesign_cfg.cfg"),
@@ -79,5 +89,6 @@ def run_c14(oc, repo, seed, tier):
     neg = core.model_check("MC_CountMinDesign", "MC_CountMinDesign_neg.cfg", workers=4, timeout=300, expect_violation=True)
     oc.notes.append("negative config MC_CountMinDesign_neg.cfg (merge forgets the last row): TLC reports %s" % (neg["errors"][:1],))
     core.trace_job(oc, CM_JOB, repo, seed, tier)
+    core.trace_job(oc, CM_WIDE_JOB, repo, seed, tier)
     if not oc.violations:
         drift_pass(oc, repo, seed, tier, 2 if tier == Q else 6)
